@@ -133,6 +133,18 @@ theorem entities_preserve_overflow_counterexample :
     decodeRefs true "&#x8000000000000041;".toList = [.cp 0xFFFD] := by
   decide +kernel
 
+/-- **attr_value_preserved** (the plain attribute path of html.go: `ReplaceEntities`, then `EscapeAttrVal`).
+    Outside the guards, whatever quoting the input used and whatever quoting and references the minifier chooses:
+    the written attribute tokenises back to one conforming value that decodes to what the input value decoded to. -/
+theorem attr_value_preserved (val : List Char) (q : Quote) (must : Bool) (rest : List Char)
+    (hne : replaceEntitiesAttr val ≠ []) (hrest : tagContinues rest = true) (g : refsTrigger val = false) :
+    ∃ raw, tokenizeAttr (escapeAttrVal (replaceEntitiesAttr val) q must ++ rest) = some (raw, rest) ∧
+      decodeAttr raw = decodeAttr val := by
+  obtain ⟨raw, h1, h2⟩ := attr_roundtrip (replaceEntitiesAttr val) q must rest hne hrest
+  refine ⟨raw, h1, ?_⟩
+  rw [h2]
+  exact entities_preserve_partial true val g
+
 /-! ## whitespace (`html.go` text branch and the pending-space flag) -/
 section Whitespace
 open Verif.Model.Html Verif.Spec.HtmlWs Verif.Proofs.HtmlWs
